@@ -20,7 +20,10 @@ MCMangledPkgs == {"w_leadnl", "w_lsml", "w_nlonly"}
 
 AllCfgs == CfgClasses
 AllInits == UserKinds \cup {"absent"}
-WA(id, pkgs, cfgs, inits, envs, ancs) == [id |-> id, pkgs |-> pkgs, gopkgs |-> pkgs \cap {"root", "sub"}, cfgs |-> cfgs, inits |-> inits, envs |-> envs, ancs |-> ancs]
+WX(id, pkgs, cfgs, inits, envs, ancs, mixes) == [id |-> id, pkgs |-> pkgs, gopkgs |-> pkgs \cap {"root", "sub", "mix"}, cfgs |-> cfgs, inits |-> inits, envs |-> envs, ancs |-> ancs, mixes |-> mixes]
+WA(id, pkgs, cfgs, inits, envs, ancs) == WX(id, pkgs, cfgs, inits, envs, ancs, {{}})
+\* a world whose package "mix" is made of one of the given sets of source-file classes
+WM(id, cfgs, mixes) == WX(id, {"mix"}, cfgs, {"absent"}, {"none"}, {"none"}, mixes)
 WE(id, pkgs, cfgs, inits, envs) == WA(id, pkgs, cfgs, inits, envs, {"none"})
 W(id, pkgs, cfgs, inits) == WE(id, pkgs, cfgs, inits, {"none"})
 AllEnvs == EnvClasses
@@ -79,10 +82,20 @@ StrWorlds == {StrWorld("s1", Odd1), StrWorld("s2", Odd2), StrWorld("s3", Odd3), 
               StrWorld("s5", Odd5), StrWorld("s6", Odd6), StrWorld("s7", Odd7), StrWorld("s8", Odd8),
               StrWorld("s9", Odd9), StrWorld("s10", Odd10), StrWorld("s11", Odd11), StrWorld("s12", Odd12), StrWorld("s13", Odd13), StrWorld("s14", Odd14), StrWorld("s15", Odd15), StrWorld("s16", Odd16), StrWorld("s17", Odd17), StrWorld("s18", Odd18)}
 
+\* source-file classes (InitCmdContract!FileClass): every class next to a hand-written file, every class that is
+\* compiled on its own (a package that is nothing but generated code), all of them together, all but the
+\* hand-written one; thorough: every set of at most two classes and every set lacking at most one
+InFiles == {f \in FileClasses : FileClass[f].status = "in"}
+MixQ == {{"plain", f} : f \in FileClasses} \cup {{f} : f \in InFiles} \cup {FileClasses, FileClasses \ {"plain"}}
+MixT == {m \in SUBSET FileClasses : Cardinality(m) <= 2 \/ Cardinality(m) >= Cardinality(FileClasses) - 1}
+FilesQ == WM("files", {"default"}, MixQ)
+FilesT == WM("files", {"default"}, MixT)
+ASSUME PrintT(<<"FILECLASSES", ToJson(FileClass)>>)
+
 OddModsQ == {"m_true", "m_null", "m_int", "m_float", "m_yes", "m_date", "m_punct", "m_hex"}
-MCWorldsQuick == {MainQ, EnvQ, AncQ, SymQ, ArgsQ, ExtQ} \cup {OddWorld(m) : m \in OddModsQ} \cup StrWorlds
+MCWorldsQuick == {MainQ, EnvQ, AncQ, SymQ, ArgsQ, ExtQ, FilesQ} \cup {OddWorld(m) : m \in OddModsQ} \cup StrWorlds
 \* thorough: the same alphabets in more --config classes and initial contents
 OddWorldT(m) == WE(m, {"root", "sub"}, {"default", "rel", "abs", "cwdsub", "after"}, {"absent", "valid"}, {"none", "several"})
 StrWorldT(w) == W(w.id, w.pkgs, {"default", "rel", "abs", "subdir", "cwdsub", "eqform"}, {"absent", "valid", "empty", "twin", "link"})
-MCWorldsThorough == {Main, EnvT, AncT, SymT, ExtT} \cup {OddWorldT(m) : m \in OddMods} \cup {StrWorldT(w) : w \in StrWorlds}
+MCWorldsThorough == {Main, EnvT, AncT, SymT, ExtT, FilesT} \cup {OddWorldT(m) : m \in OddMods} \cup {StrWorldT(w) : w \in StrWorlds}
 =============================================================================
